@@ -64,7 +64,7 @@ def run(ctx):
         ctx.report = saved
     for o in sub.obligations:
         if o.module == 'petl.transform.sorts':
-            rep.add('R5.6', (o.module, o.qualname), o.construct, o.status, o.message, None, o.detail)
+            rep.add('R5.6', (o.module, o.qualname), o.construct, o.status, o.message, o.lineno, o.detail)
     rep.rule('R5.6', 'ordering provenance in sorts.py (C04 R4.3 restricted to the module)')
 
 
@@ -317,7 +317,7 @@ def r53(ctx, rep):
         ctx.report = saved
     for o in sub.obligations:
         if '_Keyed' in o.qualname:
-            rep.add('R5.3', (o.module, o.qualname), o.construct, o.status, o.message, None, o.detail)
+            rep.add('R5.3', (o.module, o.qualname), o.construct, o.status, o.message, o.lineno, o.detail)
 
 
 # ------------------------------------------------------------------------- R5.4
